@@ -1136,13 +1136,27 @@ func callBuiltin(caller *frame, fn *ssa.Builtin, args []value) value {
 		return &caller.defers
 	}
 
-	panic("unknown built-in: " + fn.Name())
+	switch fn.Name() {
+	case "SliceData":
+		return sliceDataPtr{sl: args[0].([]value)}
+	case "StringData":
+		return sliceDataPtr{sl: strBytes(args[0])}
+	case "String":
+		p := args[0].(sliceDataPtr)
+		return mkString(p.sl[:asInt64(args[1])])
+	case "Slice":
+		if p, ok := args[0].(sliceDataPtr); ok {
+			n := asInt64(args[1])
+			return p.sl[:n:n]
+		}
+	}
+	panic(pathEnd{StUnsupported, "unknown built-in: " + fn.Name()})
 }
 
 func rangeIter(fr *frame, x value) iter {
 	switch x := x.(type) {
 	case *omap:
-		return &omapIter{m: x}
+		return newMapIter(fr.p, x)
 	case string:
 		return &stringIter{Reader: strings.NewReader(x)}
 	case symString:
@@ -1571,3 +1585,7 @@ func copyval(v value) value {
 	}
 	return v
 }
+
+// sliceDataPtr is the result of unsafe.SliceData / unsafe.StringData: only
+// usable by unsafe.String / unsafe.Slice (the strings.Builder idiom).
+type sliceDataPtr struct{ sl []value }
